@@ -102,29 +102,42 @@ PARTIAL += [
 ]
 
 # ---- group gX: composition parser model -> store model over whole histories; review rA findings on C03 ----
-LEAN_MODULES += ["CifModel.Lemmas.ParserStoreSim", "CifModel.Lemmas.ParserStoreRun", "CifModel.Props.ReviewRC03"]
-REQUIRED += ["CifModel.C03_parser_store_refines_covered_partial", "CifModel.C03_parse_is_store_history_partial",
-             "CifModel.C03_store_inv_after_parse_partial",
+LEAN_MODULES += ["CifModel.Lemmas.ParserStoreSim", "CifModel.Lemmas.ParserStoreRun", "CifModel.Lemmas.ParserTraceShape", "CifModel.Props.ReviewRC03"]
+REQUIRED += ["CifModel.C03_parser_store_refines_covered_partial", "CifModel.C03_parser_store_refines_noframes_partial",
+             "CifModel.C03_parse_is_store_history_partial", "CifModel.C03_store_inv_after_parse_partial",
+             "CifModel.C03_calls_resolve", "CifModel.C03_add_packet_calls_succeed", "CifModel.C03_create_frame_calls_succeed",
+             "CifModel.C03_set_value_calls_succeed", "CifModel.C03_create_loop_calls_succeed", "CifModel.C03_prune_calls_documented",
+             "CifModel.Model.Parser.trace_paths_resolve", "CifModel.Model.Parser.trace_shaped", "CifModel.Model.Parser.res_apply",
              "CifModel.ParserSim.tree_upd", "CifModel.ParserSim.sim_mkBlock", "CifModel.ParserSim.sim_prune", "CifModel.ParserSim.sim_mkLoop",
              "CifModel.ParserSim.sim_addPkt", "CifModel.ParserSim.sim_setVal", "CifModel.ParserSim.rep_step", "CifModel.ParserSim.run_sim",
-             "CifModel.ParserSim.parse_store_sim", "CifModel.Model.Parser.mkLoop_spec", "CifModel.Model.Parser.prune_spec'"]
+             "CifModel.ParserSim.parse_store_sim", "CifModel.ParserSim.storeOps_total",
+             "CifModel.Model.Parser.mkLoop_spec", "CifModel.Model.Parser.prune_spec'"]
 PARTIAL += [
-    "group gX — C03_parser_store_refines_full (still a def) is now PROVED for the COVERED traces (C03_parser_store_refines_covered_partial): "
-    "every option record, policy and input, completed or aborted parses, lenient creations included (Store.Op.mkBlock / mkFrame carry the "
-    "`lenient` flag of cif_create_block_internal / cif_container_create_frame_internal; families store / storecontract / parse exercise it), "
-    "into a NEW CIF: the translated history (storeOps) runs through Store.step call by call with CIF_OK and ends in a store whose Store.abs IS "
-    "the parser model's CIF; the history is in contract (C03_parse_is_store_history_partial: C04_refines_from_start applies, and with it "
-    "C04 / C05 / C06 / C07's theorems about in-contract histories); afterwards WOk / Inv / autocommit hold and the store's own abstraction is "
-    "OkCif and RectCif (C03_store_inv_after_parse_partial).  COVERED (ParserSim.coveredFrom) = (1) the trace creates NO SAVE FRAME and (2) "
-    "every cif_loop_add_packet directly follows the create_loop / add_packet of the same container (parse_loop's shape; Model/ParserStoreOps."
-    "shapedFrom, evaluated by the driver on every request: sto=BADshape).  MISSING for the full theorem: (a) save frames — "
-    "Lemmas/ParserStoreSim.tree_upd is proved for frame-free states (`AState.tree` = one container per block row); with frames it must say that "
-    "the container with a given id occurs once in the tree (unique parents, parent < child); (b) pre-existing targets (the driver runs "
-    "cifOps(pre) ++ trace; the theorem starts from the empty world); (c) hypothesis (2) as a theorem about every trace.",
+    "group gX — C03_parser_store_refines_full (still a def) is now PROVED for every parse that creates NO SAVE FRAME into a NEW CIF "
+    "(C03_parser_store_refines_noframes_partial; hypothesis ParserSim.noFrames (storeTrace ...)): every option record, policy and input, "
+    "completed or aborted parses, lenient creations included (Store.Op.mkBlock / mkFrame carry the `lenient` flag of "
+    "cif_create_block_internal / cif_container_create_frame_internal; families store / storecontract / parse exercise it) — the trace HAS a "
+    "translation into a Store.Op history (ParserSim.storeOps_total), the history runs through Store.step call by call with CIF_OK and ends in "
+    "a store whose Store.abs IS the parser model's CIF; it is in contract (C03_parse_is_store_history_partial: C04_refines_from_start "
+    "applies, and with it C04 / C05 / C06 / C07's theorems about in-contract histories); afterwards WOk / Inv / autocommit hold and the store's "
+    "own abstraction is OkCif and RectCif (C03_store_inv_after_parse_partial).  Method: each call on the documented model with identities "
+    "(Spec/StoreSpec AState) against the tree (Lemmas/ParserStoreSim: tree_upd, sim_mkBlock / sim_prune / sim_mkLoop / sim_addPkt / sim_setVal — "
+    "set_value in its three cases: existing item, new scalar loop, joining the scalar loop), lifted to Store.step through C04_refines "
+    "(Lemmas/ParserStoreRun: handle tables, rep_step, run_sim).  MISSING for the full theorem: (a) save frames — tree_upd is proved for "
+    "frame-free states (AState.tree = one container per block row); with frames it must say that the container with a given id occurs once "
+    "in the tree (unique parents, parent < child) and Rep must carry paths longer than one key; (b) pre-existing targets (the driver runs "
+    "cifOps(pre) ++ trace; the theorem starts from the empty world).  Both are EXECUTED on every request of family parse (sto=ok).",
+    "review rA finding A.1 (repaired): C03_calls_resolve / Model.Parser.trace_paths_resolve — EVERY recorded call of EVERY parse (any initial "
+    "target) addresses a container that exists in the state in which the call is made (Lemmas/ParserTraceShape: a second Hoare logic over the "
+    "instrumented productions whose pre/postconditions see the recorded calls; resolution is monotone under every store call); "
+    "C03_add_packet_calls_succeed, C03_create_frame_calls_succeed, C03_set_value_calls_succeed, C03_create_loop_calls_succeed, "
+    "C03_prune_calls_documented restate the `…_calls_documented` conclusions WITHOUT the guard `getIn … = some cc` (the older statements are "
+    "kept unchanged).  SOp.docOk now also says: a non-lenient creation has a valid code, the names of a new loop are valid.  "
+    "Model.Parser.trace_shaped: every cif_loop_add_packet directly follows the create_loop / add_packet of the same container.",
     "review rA, finding 3: `consistent` (OkCif / RectCif) tolerates a loop WITHOUT packets: an ABORTED parse (callback stop or failure exit "
     "inside a loop body) skips cif_container_prune and leaves the loop it was filling packet-less; cif_walk / cif_write answer "
     "CIF_EMPTY_LOOP on such a target (observed and tolerated by the implementation-level oracle exactly then).  No theorem says that a "
     "NON-aborted parse leaves no packet-less loop.  Finding 4: the pre-existing target of C03_consistent_after is a free tree satisfying "
-    "OkCif / RectCif; that a store reached by API calls shows such a tree is proved only for stores built by a (covered) parse "
+    "OkCif / RectCif; that a store reached by API calls shows such a tree is proved only for stores built by a frame-free parse "
     "(C03_store_inv_after_parse_partial), there is no general `Store.Inv s.db -> OkCif (abs s.db)`.",
 ]
